@@ -46,6 +46,10 @@ def check_options():
         print(nodeio.write_smtlib(sys.stdout, exprs))
         sys.exit(0)
 
+    # check number of jobs
+    if options.args().jobs < 1:
+        raise DDSMTException('the number of jobs must be at least 1')
+
     # check output file
     outfile = options.args().outfile
     if os.path.isdir(outfile):
